@@ -75,9 +75,12 @@ func runConcRoots(c *Case) []string {
 	return out
 }
 
-func genConcRoots(r *Rng, emit func(Case), n int) {
+func genConcRoots(r *Rng, emit func(Case), n int) { genConcRootsOf(r, emit, n, "", 4) }
+
+// genConcRootsOf: fam "" mixes cube and square roots; otherwise only that constructor.
+func genConcRootsOf(r *Rng, emit func(Case), n int, only string, maxg int) {
 	for i := 0; i < n; i++ {
-		g := r.Range(2, 4)
+		g := r.Range(2, maxg)
 		var t toks
 		t.i(g)
 		for k := 0; k < g; k++ {
@@ -85,10 +88,17 @@ func genConcRoots(r *Rng, emit func(Case), n int) {
 			if r.Intn(3) == 0 {
 				ctor = "SqrtBigInt"
 			}
+			if only != "" {
+				ctor = only
+			}
 			t.s(ctor)
 			t.i(r.Range(2, 99))
 			t.i(1)
-			t.i(r.Pick([]int{150, 210, 260}))
+			if only == "CubeRootBigInt" {
+				t.i(r.Pick([]int{110, 150}))
+			} else {
+				t.i(r.Pick([]int{150, 210, 260}))
+			}
 		}
 		emit(Case{Ver: allVers[i%3], Op: "ConcRoots", Args: t})
 	}
@@ -167,6 +177,8 @@ func genRoots(fam []string, p int64) generator {
 		}
 		genPairs(r, emit, fam, fam, np)
 		genPairs(r, emit, sqrtCtors, cubeCtors, np/2)
+		// different Numbers of this family computed at the same time by different goroutines
+		genConcRootsOf(r, emit, np, fam[2], 8)
 		// zero and malformed
 		for _, v := range allVers {
 			for _, ctor := range fam {
